@@ -29,9 +29,9 @@ def modelOnly : PyErr → Bool
 /-- raise sites of the model that are not excluded here -/
 def residual : PyErr → Bool
   | .indexError site => site == "savedReplacements.pop(0)" || site == "quote[0]" || site == "match[0][0] paragraph" || site == "ids.pop()"
-      || site == "reader.lines[pos:pos]" || site == "no such group"
+      || site == "no such group"
   | .valueError _ => true
-  | .assertion site => site == "m is not None" || site == "qdef is not None" || site == "not self.eof()"
+  | .assertion site => site == "m is not None" || site == "qdef is not None"
   | .noneType site => site == "htmlSafeModeFilter(match[1])" || site == "entity match[1]"
   | _ => false
 
